@@ -62,6 +62,10 @@ class Plane:
 
         if mask is None:
             mask = np.copy(self._amplitude)
+            if np.iscomplexobj(mask):
+                # (the support of a complex amplitude, as real numbers: the mask
+                # weights the tilt fit)
+                mask = (mask != 0).astype(float)
         else:
             # never write into the caller's array
             mask = np.array(mask)
